@@ -32,7 +32,7 @@ ASSUMPTIONS = ["xarray.apply_ufunc moves input_core_dims last and labels outputs
 TECHNIQUE = "abstract evaluation of the grid-ufunc call chain (option threading, dummy->real binding, core-dim construction, guards)"
 LEVEL_TEXT = (
     "Abstract interpretation of the source of the grid-ufunc call chain: all six definition-time options are stored and reach apply_as_grid_ufunc, "
-    "call-time values override them and unknown options are refused; dummy axis names are bound to real axes in order of first appearance and the "
+    "call-time values override them (falsy ones too), an option that is not bound defaults to what apply_as_grid_ufunc itself defaults to, and unknown options are refused; dummy axis names are bound to real axes in order of first appearance and the "
     "binding translates output names and boundary_width; input/output core dims are the grid dimensions of (real axis, signature position) in "
     "signature order and are what xr.apply_ufunc receives; every input is padded by exactly the translated widths with the caller's rule, fill value "
     "and other_component on both the pad-before and pad-after paths; wrongly positioned inputs and arity mismatches raise before any padding. "
